@@ -14,6 +14,7 @@ free list.  A computed slot number (range variable, arithmetic, a length) is a v
 from ssa import strip, show, walk
 from origins import origins, atom_str, vec_field_of, LINKS
 from engine import span_line
+from program import VEC_MUTATORS as VEC_MUT
 
 PROPS_POOL = ['C11']
 PROPS_PROV = ['C11', 'C10']
@@ -362,11 +363,20 @@ def check_release(ctx, prog, rem, r, T0=frozenset()):
     all_kinds = []
     for c in rel:
         blk = c.point[0]
-        # it is the last act: no other call and no store after it
+        # between the release and the return the slot is on the free list while the removal is still at work: harmless (the
+        # repair never asks the pool for anything) unless something after it can take a slot from the pool or touch the pool again
         after = b.cfg.reachable_from(blk) - {blk}
         later = [x for x in b.calls if x is not c.call and x not in [q.call for q in rel] and (x.point[0] in after or (x.point[0] == blk and x.point > c.point))]
+        pool_fns = {f.path for f in r['alloc'] + r['release'] + r['grow']}
+        def touches_pool(x):
+            tgt = prog.resolve(x)
+            if tgt is None:
+                vf = vec_field_of(prog, x.args[0]) if x.args else None
+                return vf is not None and vf[-1:] in (r['free'][-1:], r['nodes'][-1:]) and x.callee_name() in VEC_MUT
+            return any(g.path in pool_fns for g in prog.closure(tgt))
+        later = [x for x in later if touches_pool(x)]
         if later:
-            problems.append('state is still changed after the slot was released (%s)' % later[0].callee_name())
+            problems.append('the pool is used again after the slot was released, before the removal has finished (%s)' % later[0].callee_name())
         # the released slot: the parameter, or the successor found below the parameter on the two-children path
         arg = strip(c.arg)
         vals = arg.args if arg.kind == 'phi' else [arg]
